@@ -4298,6 +4298,17 @@ class Macro:
                             return parse_ctx._lookup_named_entity(MacroArgumentKind.EXPR, tree.children[0])
                         except UndefinedReferenceError:
                             return tree
+                    if tree.data in ("math_var", "math_str_len", "math_str_index"):
+                        # a name inside a math expression means what it means at the call: bind it under a name the callee cannot shadow
+                        name = tree.children[0]
+                        for kind in ((MacroArgumentKind.EXPR, MacroArgumentKind.OUT) if tree.data == "math_var" else (MacroArgumentKind.OUT,)):
+                            try:
+                                bound = parse_ctx._lookup_named_entity(kind, name)
+                            except UndefinedReferenceError:
+                                continue
+                            hidden = name.update(value=f"{name.value}#{len(bound_arguments)}")
+                            bound_arguments[(kind, hidden.value)] = bound
+                            return lark.Tree(tree.data, [hidden] + [resolve_callers_arguments(x) if isinstance(x, lark.Tree) else x for x in tree.children[1:]], tree.meta)
                     return lark.Tree(tree.data, [resolve_callers_arguments(x) if isinstance(x, lark.Tree) else x for x in tree.children], tree.meta)
                 value = resolve_callers_arguments(value)
             if value.data not in allowed_types:
@@ -4404,8 +4415,8 @@ class ParseCtx:
             if (context, name) in entry:
                 return entry[(context, name)]
             if any(bound_name == name for _, bound_name in entry):
-                # the innermost macro binds this name to something of another kind: that shadows what its callers bind to it
-                break
+                # the innermost macro binds this name to something of another kind: that shadows whatever else the name could mean
+                raise UndefinedReferenceError(None, from_tree)
         # otherwise, try and find globally 
         if context not in [MacroArgumentKind.MACRO, MacroArgumentKind.LOOP, MacroArgumentKind.HOOK, MacroArgumentKind.OUT, MacroArgumentKind.FINISHCODE, MacroArgumentKind.YIELDCODE]:
             raise UndefinedReferenceError("named expression", from_tree)
